@@ -151,6 +151,8 @@ type mapIter struct {
 	// string iteration
 	s    string
 	isStr bool
+	ss    []Int // symbolic string iteration (when sym)
+	sym   bool
 }
 
 // run executes the frame, running deferred calls if a Go panic unwinds it.
@@ -370,11 +372,23 @@ func (fr *frame) runBlock() {
 				fr.env[in] = it
 			case string:
 				fr.env[in] = &mapIter{s: x, isStr: true}
+			case SStr:
+				fr.env[in] = &mapIter{ss: x.B, isStr: true, sym: true}
 			default:
 				panic(inconclusive{fmt.Sprintf("Range on %T", x)})
 			}
 		case *ssa.Next:
 			it := fr.get(in.Iter).(*mapIter)
+			if it.isStr && it.sym {
+				if it.i >= len(it.ss) {
+					fr.env[in] = tuple{Bool{C: false}, mkI64(0), mkInt(32, true, 0)}
+				} else {
+					r, sz := e.decodeRune(it.ss[it.i:])
+					fr.env[in] = tuple{Bool{C: true}, mkI64(int64(it.i)), r}
+					it.i += sz
+				}
+				break
+			}
 			if it.isStr {
 				if it.i >= len(it.s) {
 					fr.env[in] = tuple{Bool{C: false}, mkI64(0), mkInt(32, true, 0)}
